@@ -1,0 +1,21 @@
+//go:build verif
+
+// Contracts for attribute encoding (attributes.go) and the FSINFO limits: C04, C14, C23. Comment-only file.
+package absnfs
+
+// RFC 1813 ftype3 of a Go file mode: the type bits alone decide it (permission bits never do)
+//@ specdef ftypeOf(mode os.FileMode) mathint = ite(mode & os.ModeType == os.ModeDir, 2, ite(mode & os.ModeType == os.ModeSymlink, 5, ite(mode & os.ModeType == os.ModeDevice, 3, ite(mode & os.ModeType == os.ModeDevice | os.ModeCharDevice, 4, ite(mode & os.ModeType == os.ModeSocket, 6, ite(mode & os.ModeType == os.ModeNamedPipe, 7, 1))))))
+
+// fattr3 on the wire: 84 bytes; type, ids, size and fileid are the attribute record's
+//@ func encodeFileAttributes
+//@ prop C04 C14 C23
+//@ requires attrs != nil
+//@ modifies wlen, wdata
+//@ ensures [frame] appendFrame(valof(w), old(wlen[valof(w)])) && wlen[valof(w)] >= old(wlen[valof(w)])
+//@ ensures [fattr3-84-bytes] isnil(result) ==> wlen[valof(w)] == old(wlen[valof(w)]) + 84
+//@ ensures [type-from-mode] isnil(result) ==> be32(wdata[valof(w)], old(wlen[valof(w)])) == ftypeOf(attrs.Mode)
+//@ ensures [perm-bits] isnil(result) ==> be32(wdata[valof(w)], old(wlen[valof(w)]) + 4) == attrs.Mode & 511
+//@ ensures [owner] isnil(result) ==> be32(wdata[valof(w)], old(wlen[valof(w)]) + 12) == attrs.Uid && be32(wdata[valof(w)], old(wlen[valof(w)]) + 16) == attrs.Gid
+//@ ensures [size] isnil(result) ==> be64(wdata[valof(w)], old(wlen[valof(w)]) + 20) == uint64(attrs.Size)
+//@ ensures [fileid] isnil(result) ==> be64(wdata[valof(w)], old(wlen[valof(w)]) + 52) == attrs.FileId
+//@ ensures [buffer-never-fails] typeof(w) == typeid(*bytes.Buffer) ==> isnil(result)
